@@ -15,7 +15,7 @@ try:
     for c in man["checks"]:
         spec = importlib.import_module("props." + c["property_id"].lower()).SPEC
         import gen_lean
-        gen_lean.run(["grid", "anchors", "orbits", "cores", "attrs", "links3", "sews2", "sews3", "links3c", "alloc", "sews3c", "dispatch3", "dispatch2", "vins", "geom", "remesh", "vinsn", "collapse", "fan", "earclip", "griddesc", "gcross"])
+        gen_lean.run(["grid", "anchors", "orbits", "cores", "attrs", "links3", "sews2", "sews3", "links3c", "alloc", "sews3c", "dispatch3", "dispatch2", "vins", "geom", "remesh", "vinsn", "collapse", "fan", "earclip", "griddesc", "gcross", "pre"])
         targets += spec["lean_modules"]
 except Exception as e:  # noqa: BLE001
     print("setup: could not read the manifest/specs:", e)
